@@ -395,6 +395,7 @@ func vC25_registry_roundtrip(s Serializer, tag byte) {
 	got, err := s.Deserialize(frame)
 	vAssert(err == nil, "a serialized frame deserializes")
 	if err == nil {
+		known := true
 		switch g := got.(type) {
 		case *VC25Struct:
 			vAssert(vCase("kind") == 0 && g != m && vC25_bytesEq(g.Payload, payload), "a struct comes back as a pointer to an equal struct")
@@ -403,8 +404,9 @@ func vC25_registry_roundtrip(s Serializer, tag byte) {
 			vAssert(vCase("kind") == 1 && g == string(payload), "a built-in primitive comes back as an equal value (not a pointer)")
 			vCover("primitive")
 		default:
-			vAssert(false, "the deserialized value has the registered type")
+			known = false
 		}
+		vAssert(known, "the deserialized value has the registered type")
 	}
 	vCover("end")
 }
